@@ -1,0 +1,22 @@
+//go:build verif
+
+// Machine-checked contracts for govc (see /verif/DESIGN.md). Comments only;
+// compiled only with the build tag "verif".
+
+package clientcredentials
+
+//@ func (*Config).getCacheTTL
+//@   props C10
+//@   modifies nothing
+//@   watch old(c.TTL)
+//@   watch old(*c.TTL)
+//@   watch old(unixnano(resp.Expiry))
+//@   watch clock
+//@   ensures ret0 >= 0
+//@   ensures c.TTL != nil && *c.TTL <= 0 ==> ret0 == 0
+//@   ensures c.TTL != nil ==> ret0 <= max(*c.TTL, 0)
+//@   ensures unixnano(resp.Expiry) != zeroTimeNano() ==> ret0 <= max(0, unixnano(resp.Expiry) - old(clock) - 5000000000)
+//@   ensures unixnano(resp.Expiry) == zeroTimeNano() && c.TTL == nil ==> ret0 == 0
+
+//@ func (*Config).Token
+//@   props C10
